@@ -138,7 +138,10 @@ def render(d, rng, spell_mode):
             body.append("    vftable {\n%s;\n    }" % ";\n".join(fs))
         for e in t["entries"]:
             if e[0] == "gap":
-                body.append("    _: unknown<%s>" % spell(rng, e[1], spell_mode))
+                # what is written on a hole (`pub`, a doc comment) is dropped: the member is private and undocumented
+                k = rng.random()
+                deco = "    /// reserved, do not touch\n" if k < 0.12 else ""
+                body.append(deco + "    %s_: unknown<%s>" % ("pub " if 0.06 < k < 0.2 else "", spell(rng, e[1], spell_mode)))
             else:
                 pre = "#[address(%s)] " % spell(rng, e[3], spell_mode) if e[3] is not None else ""
                 if len(e) > 6 and e[6]:
